@@ -1,0 +1,85 @@
+//go:build verif
+
+package icmp_spoofer
+
+import (
+	"sync/atomic"
+	"time"
+
+	"github.com/irai/packet"
+)
+
+// Verification hooks: compiled only with -tags verif. They expose unexported
+// state to the model-based verification harness and never change behaviour
+// unless a harness installs a sink.
+
+// VerifEmit, when set by a test harness, receives one event per instrumented
+// linearisation point (called with the handler mutex held where the code holds it).
+var VerifEmit func(ev string, kv ...interface{})
+
+// VerifGate, when set by a test harness, is called at named scheduling points of a
+// spoof loop (never with the mutex held) and may block.
+var VerifGate func(name string, loop int)
+
+// VerifWake, when set by a test harness, supplies an extra wake-up channel for the
+// sleep of a spoof loop (an injectable delay next to the 2.0-2.8 s timer).
+var VerifWake func(loop int) <-chan time.Time
+
+var verifLoopSeq int32
+
+func verifEmit(ev string, kv ...interface{}) {
+	if f := VerifEmit; f != nil {
+		f(ev, kv...)
+	}
+}
+
+func verifGate(name string, loop int) {
+	if f := VerifGate; f != nil {
+		f(name, loop)
+	}
+}
+
+func verifWake(loop int) <-chan time.Time {
+	if f := VerifWake; f != nil {
+		return f(loop)
+	}
+	return nil
+}
+
+// verifLoopStart numbers the spoof loop instances of the process.
+func verifLoopStart(addr packet.Addr) int {
+	id := int(atomic.AddInt32(&verifLoopSeq, 1))
+	verifEmit("ndp.loop", id, addr)
+	return id
+}
+
+func verifLoopDone(loop int) { verifEmit("ndp.done", loop) }
+
+// verifStop and verifCheck are called with the handler mutex held.
+func verifStop(h *Handler6, addr packet.Addr) {
+	verifEmit("ndp.stop", addr, h.huntList.Index(addr.MAC) != -1)
+}
+
+func verifCheck(h *Handler6, loop int, dst packet.Addr) {
+	verifEmit("ndp.check", loop, dst, h.huntList.Index(dst.MAC) != -1, h.closed, h.Router != nil)
+}
+
+// VerifHuntList returns a snapshot of the hunt list (in list order).
+func (h *Handler6) VerifHuntList() []packet.Addr {
+	h.Lock()
+	defer h.Unlock()
+	return h.huntList.VerifList()
+}
+
+// VerifRACounter returns the process-global RA counter (every 4th RA is processed).
+func VerifRACounter() int { return repeat }
+
+// VerifDefaultRouter returns the address of the default router used to enable the attack, if any.
+func (h *Handler6) VerifDefaultRouter() (packet.Addr, bool) {
+	h.Lock()
+	defer h.Unlock()
+	if h.Router == nil {
+		return packet.Addr{}, false
+	}
+	return packet.Addr{MAC: packet.CopyMAC(h.Router.Addr.MAC), IP: h.Router.Addr.IP}, true
+}
